@@ -17,11 +17,13 @@ LEVEL_TEXT = ("Coq theorems about the executable model (moral_adj / moral_edges 
               "UNBOUNDED (all graphs, all sizes): moral_adjacency (adjacent in the moral graph <-> joined by an edge or by a simple "
               "path whose inner nodes are all colliders), moral_nodes / moral_edges_spec / moral_graph_adjacent (exactly G's nodes; "
               "the edge list is that relation), moral_dag_is_nx (no bidirected edge: skeleton + married co-parents = "
-              "networkx.moral_graph). BOUNDED by kernel computation (vm_compute): the separation criterion "
+              "networkx.moral_graph), and one direction of the criterion, moral_criterion_fwd: a vertex cut Z in the moral graph of the "
+              "anterior subgraph m-separates X and Y (m-connecting path => Z-avoiding moral connection; needs only 'no arrowhead at an "
+              "endpoint of an undirected edge'). BOUNDED by kernel computation (vm_compute): the separation criterion "
               "msep g X Y Z <-> Z is a vertex cut in the moral graph of the anterior subgraph, for ALL graphs of the C01 domain on "
               "<= 3 nodes (moral_criterion_bounded_3) and for all graphs on 4 nodes with at most one edge per pair incl. all DAGs "
-              "(moral_criterion_bounded_anc_4 / _dag_4), all pairwise disjoint X, Y, Z. NOT proved for all sizes: the criterion "
-              "(full statement kept in C12/Spec.v, moral_criterion_stmt); 4-node graphs with a directed and a bidirected edge on one "
+              "(moral_criterion_bounded_anc_4 / _dag_4), all pairwise disjoint X, Y, Z. NOT proved for all sizes: the converse direction of the criterion (m-separated => vertex cut; "
+              "full statement kept in C12/Spec.v, moral_criterion_stmt); 4-node graphs with a directed and a bidirected edge on one "
               "pair and all larger graphs are covered by correspondence only (extracted oracle msep_dec up to n=5, "
               "implementation's own m_separated beyond). The implementation is tied to the model by differential correspondence "
               "on every run (tie K).")
